@@ -5,6 +5,7 @@ import Ktm.DriverTF
 import Ktm.DriverMetrics
 import Ktm.DriverGrid
 import Ktm.DriverRandom
+import Ktm.DriverSync
 /-! Dispatcher of the line protocol: every line carries a `suite` field; `op = init` (re)starts the
     suite's state. -/
 open Lean
@@ -38,6 +39,7 @@ def handleLine (st : DSt) (line : String) : DSt × String :=
       let cur : Option DriverRandom.St := match st with | .rnd s => some s | _ => Option.none
       let (s', out) := DriverRandom.handle cur j
       (match s' with | some s => .rnd s | Option.none => st, out)
+    | "sync" => (st, DriverSync.handle j)
     | "transforms" => (st, DriverTF.handle j)
     | "metrics" => (st, DriverMetrics.handle j)
     | s => (st, s!"bad-suite {s}")
